@@ -28,7 +28,8 @@ type c15Op struct {
 	Disconnect   int    `json:"disconnect,omitempty"`     // connected clients that leave before the call
 	HoldLoopExit bool   `json:"hold_loop_exit,omitempty"` // park the old accept loops at their accept-error exit during the stop
 	HoldAccepted bool   `json:"hold_accepted,omitempty"`  // a client is accepted but the loop is parked before registering it when Stop is called
-	HoldServing  string `json:"hold_serving,omitempty"`   // a connection goroutine is parked before it starts serving; released: "" (no hold) | after-op | after-next | end
+	HoldServing  string `json:"hold_serving,omitempty"`   // a connection goroutine is parked before it starts serving; released: "" (no hold) | after-op | after-next (after the next Start) | after-clients (after the next Start and after new clients have connected) | end
+	HoldLoopEnd  bool   `json:"hold_loop_end,omitempty"`  // park the old accept loops at the very end of their goroutine (after Stop has stopped waiting for them) until the next Start has returned
 	HoldStopMid  bool   `json:"hold_stop_mid,omitempty"`  // park Stop between closing the listeners and sweeping the connections; a client tries to connect meanwhile
 	HoldOpened   bool   `json:"hold_opened,omitempty"`    // park Start after the listeners are open; a client connects meanwhile
 }
@@ -54,6 +55,9 @@ func (c c15Case) describe() string {
 		}
 		if o.HoldAccepted {
 			fl = append(fl, "hold-accepted")
+		}
+		if o.HoldLoopEnd {
+			fl = append(fl, "hold-loop-end")
 		}
 		if o.HoldServing != "" {
 			fl = append(fl, "hold-serving:"+o.HoldServing)
@@ -225,11 +229,12 @@ func evalC15(c c15Case) (fl *Failure) {
 	afterStop := func(when string, extra []*c15Client) *Failure {
 		// synchronous promises of Stop, judged at its return with every parked goroutine still parked
 		for i, p := range ports {
-			if holdsListener(p) {
-				return failf("c15|port-held", "%s: %s: the process still holds a listening socket on port #%d", what, when, i)
-			}
-			l, err := net.Listen("tcp", fmt.Sprintf("127.0.0.1:%d", p))
+			// bind probe; only if it fails is /proc consulted to tell "we still hold it" from "someone else took it"
+			l, err := net.Listen("tcp", fmt.Sprintf(":%d", p))
 			if err != nil {
+				if holdsListener(p) {
+					return failf("c15|port-held", "%s: %s: the process still holds a listening socket on port #%d (%v)", what, when, i, err)
+				}
 				return failf("harness|bind-probe", "%s: %s: port #%d cannot be bound although this process does not hold it: %v", what, when, i, err)
 			}
 			l.Close()
@@ -253,6 +258,7 @@ func evalC15(c c15Case) (fl *Failure) {
 		return nil
 	}
 
+	var lateEnds []*sched.Parked      // old accept loops parked at the very end of their goroutine
 	var lateExits []*sched.Parked     // old accept loops still parked at their exit after Stop returned
 	var servingParked []*sched.Parked // connection goroutines parked before serving, with their release timing
 	var servingWhen []string
@@ -268,6 +274,27 @@ func evalC15(c c15Case) (fl *Failure) {
 			}
 		}
 		servingParked, servingWhen = keepP, keepW
+	}
+
+	// releaseAfterClients lets go the connection goroutines held since an earlier run, now that new clients are
+	// connected, waits for them to wind down and checks that the registry still holds exactly the connected clients
+	releaseAfterClients := func(when string) *Failure {
+		n := 0
+		for _, w := range servingWhen {
+			if w == "after-clients" {
+				n++
+			}
+		}
+		if n == 0 || !running {
+			return nil
+		}
+		before := ts.Count("conn.closed")
+		releaseServing("after-clients")
+		deadline := time.Now().Add(5 * time.Second)
+		for ts.Count("conn.closed") < before+n && time.Now().Before(deadline) {
+			time.Sleep(time.Millisecond)
+		}
+		return registryIs(len(clients), when+" (after late connection goroutines of an earlier run ended)")
 	}
 
 	doStart := func(o c15Op, when string) *Failure {
@@ -360,6 +387,12 @@ func evalC15(c c15Case) (fl *Failure) {
 		if o.HoldStopMid {
 			ts.Arm("stop.mid", 1)
 		}
+		if o.HoldLoopEnd {
+			ts.Arm("serve.exit", 1)
+			if c.TLS {
+				ts.Arm("tlsServe.exit", 1)
+			}
+		}
 		errCh := make(chan error, 1)
 		go func() { errCh <- srv.Stop() }()
 		if o.HoldStopMid {
@@ -411,6 +444,15 @@ func evalC15(c c15Case) (fl *Failure) {
 			return failf("c15|stop-error", "%s: %s: Stop returned %v", what, when, stopErr)
 		}
 		running = false
+		if o.HoldLoopEnd {
+			for _, pt := range []string{"serve.exit", "tlsServe.exit"}[:nloops] {
+				p, err := ts.WaitParked(pt, stepTimeout)
+				if err != nil {
+					return failf("harness|sched", "%s: %s: %v", what, when, err)
+				}
+				lateEnds = append(lateEnds, p)
+			}
+		}
 		if f := afterStop(when, extra); f != nil {
 			return f
 		}
@@ -436,6 +478,9 @@ func evalC15(c c15Case) (fl *Failure) {
 				}
 				clients = append(clients, cl)
 			}
+			if f := releaseAfterClients("before " + when); f != nil {
+				return f
+			}
 			if f := registryIs(len(clients), "before "+when); f != nil {
 				return f
 			}
@@ -452,7 +497,7 @@ func evalC15(c c15Case) (fl *Failure) {
 		case "restart":
 			// Restart = Stop + Start; the holds apply to its two halves. It is driven through the public Restart
 			// when no hold needs the two halves to be told apart, otherwise through Stop and Start.
-			if !o.HoldAccepted && !o.HoldLoopExit && !o.HoldStopMid && !o.HoldOpened && o.HoldServing == "" {
+			if !o.HoldAccepted && !o.HoldLoopExit && !o.HoldLoopEnd && !o.HoldStopMid && !o.HoldOpened && o.HoldServing == "" {
 				old := clients
 				clients = nil
 				errCh := make(chan error, 1)
@@ -482,6 +527,14 @@ func evalC15(c c15Case) (fl *Failure) {
 		}
 		if running {
 			releaseServing("after-next")
+			if len(lateEnds) > 0 {
+				// the old loops finish their goroutines only now, with the next run's listeners already open
+				for _, p := range lateEnds {
+					p.Release()
+				}
+				lateEnds = nil
+				time.Sleep(15 * time.Millisecond) // scheduling aid: nothing observable marks the end of a goroutine
+			}
 			if len(lateExits) > 0 {
 				// let the late loops run their exit path to completion before probing
 				n0 := ts.Count("serve.exit") + ts.Count("tlsServe.exit")
@@ -501,14 +554,26 @@ func evalC15(c c15Case) (fl *Failure) {
 				return f
 			}
 		} else {
-			if f := noGoroutinesIfQuiet(servingParked, noGoroutines, "after "+when); f != nil {
+			if f := noGoroutinesIfQuiet(append(append(append([]*sched.Parked{}, servingParked...), lateEnds...), lateExits...), noGoroutines, "after "+when); f != nil {
 				return f
 			}
 		}
 	}
 	// wind down: release everything, stop, final checks
-	for _, p := range lateExits {
+	for _, p := range append(lateExits, lateEnds...) {
 		p.Release()
+	}
+	if running && len(servingParked) > 0 {
+		// one more client joins before the connection goroutines held since an earlier run are let go
+		if cl, err := dial(false); err == nil {
+			if err := ping(cl); err != nil {
+				return failf("c15|not-serving", "%s: at the end: %v", what, err)
+			}
+			clients = append(clients, cl)
+		}
+		if f := releaseAfterClients("at the end"); f != nil {
+			return f
+		}
 	}
 	releaseServing("end")
 	ts.ReleaseAll()
@@ -548,7 +613,7 @@ var _ = io.EOF
 
 func c15Nontrivial(c c15Case) bool {
 	for _, o := range c.Ops {
-		if o.HoldAccepted || o.HoldLoopExit || o.HoldStopMid || o.HoldOpened || o.HoldServing != "" {
+		if o.HoldAccepted || o.HoldLoopExit || o.HoldLoopEnd || o.HoldStopMid || o.HoldOpened || o.HoldServing != "" {
 			return true
 		}
 	}
@@ -557,7 +622,8 @@ func c15Nontrivial(c c15Case) bool {
 
 func TestC15(t *testing.T) {
 	h := newHarness(t, "C15", "lifecycle sequences over {Start, Stop, Restart} (legal for a user, length <= 6) on real loopback sockets (plain port, or plain + TLS), with 0..3 clients connecting/idling/disconnecting between calls, "+
-		"x schedules of the goroutines at instrumented points: old accept loops parked at their accept-error exit during Stop, a connection accepted but not yet registered when Stop is called, a connection goroutine parked before serving (released after the call / after the next Start / at the end), "+
+		"x schedules of the goroutines at instrumented points: old accept loops parked at their accept-error exit during Stop or at the very end of their goroutine until the next Start has returned, a connection accepted but not yet registered when Stop is called, "+
+		"a connection goroutine parked before serving (released after the call / after the next Start / after the next Start once new clients have connected / at the end), "+
 		"Stop parked between closing listeners and sweeping connections while a client tries to connect, Start parked after opening the listeners while a client connects. EXHAUSTIVE over all hold combinations for sequences of <= 3 calls (quick: plain port; thorough: also TLS), random beyond. "+
 		"Oracle: after Start/Restart a fresh client gets +PONG on every enabled port and the registry equals the connected clients; at Stop's return the ports are released (bind probe + /proc/self/net/tcp), every client sees EOF/reset and the registry is empty; after settling no server goroutine remains. "+
 		"Non-trivial: the schedule holds at least one goroutine at a point. Distinct = distinct (sequence, holds).")
@@ -576,9 +642,9 @@ func TestC15(t *testing.T) {
 	seqs := [][]string{{"start"}, {"start", "stop"}, {"start", "restart"}, {"start", "stop", "start"}, {"start", "restart", "stop"}, {"start", "restart", "restart"}}
 	stopVariants := func() []c15Op {
 		var out []c15Op
-		for mask := 0; mask < 8; mask++ {
-			for _, hs := range []string{"", "after-op", "after-next", "end"} {
-				out = append(out, c15Op{HoldLoopExit: mask&1 != 0, HoldAccepted: mask&2 != 0, HoldStopMid: mask&4 != 0, HoldServing: hs})
+		for mask := 0; mask < 16; mask++ {
+			for _, hs := range []string{"", "after-op", "after-next", "after-clients", "end"} {
+				out = append(out, c15Op{HoldLoopExit: mask&1 != 0, HoldAccepted: mask&2 != 0, HoldStopMid: mask&4 != 0, HoldLoopEnd: mask&8 != 0, HoldServing: hs})
 			}
 		}
 		return out
@@ -602,8 +668,8 @@ exh:
 					if n%h.NShards != h.Shard {
 						return
 					}
-					// quick: every 4th schedule of the sequences with two stop-like calls (the single-call spaces are complete)
-					if !h.Thorough() && len(seq) == 3 && seq[1] == "restart" && (n/h.NShards)%4 != 0 {
+					// quick: every 40th schedule of the three-call sequences (the single-call spaces are complete)
+					if !h.Thorough() && len(seq) == 3 && (n/h.NShards)%40 != 0 {
 						return
 					}
 					if !run(c15Case{TLS: useTLS, Ops: append([]c15Op{}, ops...)}, "exhaustive") {
@@ -663,7 +729,8 @@ exh:
 				o.HoldLoopExit = rapid.Bool().Draw(rt, "loopexit")
 				o.HoldAccepted = rapid.Bool().Draw(rt, "accepted")
 				o.HoldStopMid = rapid.Bool().Draw(rt, "stopmid")
-				o.HoldServing = rapid.SampledFrom([]string{"", "", "after-op", "after-next", "end"}).Draw(rt, "serving")
+				o.HoldServing = rapid.SampledFrom([]string{"", "", "after-op", "after-next", "after-clients", "end"}).Draw(rt, "serving")
+				o.HoldLoopEnd = rapid.Bool().Draw(rt, "loopend")
 				if o.Kind == "restart" {
 					o.HoldOpened = rapid.Bool().Draw(rt, "opened")
 				} else {
